@@ -127,6 +127,7 @@ def run_shard(spec, acc):
         nb = d.length if d.length is not None else (d.total_bits() + 7) // 8
         qfields = [f for f in d.fields if f.pq and f.match is None and f.bits is not None]
         payloads = []
+        near, near_for, near_groups = [], {}, {}
         base = gen.base_raws(d, rng, dbx)
         payloads.append(dbx.pack(d, base))
         for f in qfields:
@@ -143,7 +144,7 @@ def run_shard(spec, acc):
                 continue
             lo, hi = f.raw_bounds()
             for target, (inv, step) in INVERSE[f.pq].items():
-                for _ in range(3 if quick else 25):
+                for _ in range(4 if quick else 25):
                     centre = rng.randint(lo, hi) if hi >= lo else 0
                     x = CONV[(f.pq, target)][0](float(f.scaled(centre & f.mask)))
                     tie = (math.floor(x / step) + 0.5) * step          # nearest tie above
@@ -153,10 +154,19 @@ def run_shard(spec, acc):
                         if lo <= rr <= hi and (rr & f.mask) != f.na_raw():
                             raws = dict(base)
                             raws[f.order] = rr & f.mask
-                            payloads.append(dbx.pack(d, raws))
+                            near.append(dbx.pack(d, raws))
+                            near_for[near[-1]] = (f.pq, target)
+                            near_groups.setdefault((f.order, target), {}).setdefault(raw0, []).append(near[-1])
                             acc.count("near_tie_payloads")
         if quick:
-            payloads = payloads[:1] + rng.sample(payloads[1:], min(len(payloads) - 1, 40))
+            # a fixed share for the readings next to a rounding tie (they are the rare ones a uniform sample misses)
+            payloads = payloads[:1] + rng.sample(payloads[1:], min(len(payloads) - 1, 28)) 
+            # ... by whole neighbourhoods: two ties of every (field, conversion), each with its seven neighbouring raw values
+            for key_ in sorted(near_groups):
+                for raw0_ in rng.sample(sorted(near_groups[key_]), min(2, len(near_groups[key_]))):
+                    payloads += near_groups[key_][raw0_]
+        else:
+            payloads += near
         for payload in payloads:
             if dbx.select(d.pgn, payload) is not d:
                 continue
@@ -168,6 +178,11 @@ def run_shard(spec, acc):
             if m0 is None:
                 continue
             picks = list(range(len(maps))) if not quick else rng.sample(range(len(maps)), 6)
+            if quick and payload in near_for:
+                # a reading built next to a rounding tie of one conversion is (also) decoded with preferences that ask for it
+                pq_, t_ = near_for[payload]
+                asking = [mi_ for mi_ in range(len(maps)) if maps[mi_][1].get(pq_) == t_]
+                picks = asking[:3] + [mi_ for mi_ in picks if mi_ not in asking][:2]
             for mi in picks:
                 lib_map, want_map = maps[mi]
                 # mostly the long-lived decoder of this preference map (it has seen every other definition of the
